@@ -45,7 +45,7 @@ def main():
     chk2 = c03.root_check('C05', ['C05/zz_verif_c05_dist.go'], extra_installers=[seqchan.install, orbit.install_relay])
     PR = MOD + '.'
     chk2.load([PR + 'VerifC05Distribute'])
-    dgrid = [(0, 0, 1), (0, 1, 1), (0, 2, 2), (1, 0, 1), (1, 1, 1), (1, 2, 3), (1, 3, 14)] if t == 'quick' else [(0, 0, 1), (0, 1, 1), (0, 2, 2), (0, 3, 8), (1, 0, 1), (1, 1, 1), (1, 2, 4), (1, 3, 14), (1, 4, 14)]
+    dgrid = [(0, 0, 1), (0, 1, 1), (1, 0, 1), (1, 1, 2), (2, 1, 1), (2, 2, 1), (2, 3, 2)] if t == 'quick' else [(0, 0, 1), (0, 1, 1), (0, 2, 4), (1, 0, 1), (1, 1, 2), (1, 2, 14), (2, 1, 1), (2, 2, 1), (2, 3, 2), (2, 4, 4)]
     dj = []
     for (sc, st, K) in dgrid:
         for i in range(K):
